@@ -9,7 +9,8 @@ ID = 'C07'
 DOMAIN = 'gin/call'
 PROPS_FILES = ['Gin/Props/C07.lean', 'Gin/Props/C07b.lean']
 ANCHOR_FILES = ['config.py']
-RULE = ('C01 generator with allow/deny lists, signature defaults that are sometimes not literally representable '
+RULE = ('[table on the real code: called registered methods of same-named classes in different modules; operative text replays] '
+        'C01 generator with allow/deny lists, signature defaults that are sometimes not literally representable '
         '(opaque objects) and bindings to opaque objects; 2-6 calls under random scopes with random caller-supplied / '
         'omitted splits, operative_config_str() parsed after every call; at the end the text is replayed on the real '
         'code (clear_config, parse_config(text), same calls) and received arguments and text are compared. '
@@ -46,6 +47,22 @@ def gen_case(rng):
     tgt = rng.choice(scopes)
     k = len(body) if fixed_store else rng.randint(len(body) // 2, len(body))
     body[k:k] = [G.gen_call(rng, reg, G.gen_enter(rng, tgt), w_required=0.05), {'op': 'opstr'}]
+  if not fixed_store and rng.random() < 0.6:
+    # the value used most recently, also when it compares equal to the one recorded before (1 / True / 1.0)
+    reg = rng.choice(regs)
+    cls = [n for n, k in G.param_classes(reg).items() if k == 'valid' and n not in ('anyk',)]
+    if cls:
+      p = rng.choice(cls)
+      v1, v2 = rng.choice([(1, True), (True, 1), (0, False), (0, {'f': '0.0', 'fin': True}), ({'f': '1.0', 'fin': True}, 1),
+                           ({'t': [1, 0]}, {'t': [True, False]}), ({'l': [1]}, {'l': [{'f': '1.0', 'fin': True}]})])
+      sc = rng.choice(scopes)
+      for v in (v1, v2):
+        body.append({'op': 'bind', 'scope': '/'.join(sc), 'sel': reg['_selector'], 'arg': p, 'val': v,
+                     '_form': rng.choice(['tuple', 'str', 'text']), 'block': False})
+        call = G.gen_call(rng, reg, G.gen_enter(rng, sc), w_bad=0.0)
+        call['kwargs'] = [kv for kv in call['kwargs'] if kv[0] != p]
+        call['args'] = call['args'][:1] if '_selfname' in call else []
+        body += [call, {'op': 'operative'}, {'op': 'opstr'}]
   ops += body
   ops += [{'op': 'operative'}, {'op': 'opstr'}]
   return {'dom': 'gin', 'ops': ops, '_fixed_store': fixed_store}
@@ -125,7 +142,63 @@ def run_singleton_case(case):
   return {'out': [], 'facts': facts}
 
 
+# registered methods of two classes that share their name (and the method's name) across modules: the section of
+# a called method is printed under a name that parses back - a finite table on the real code
+METHOD_CASES = [{'dom': 'gin', '_kind': 'methods', 'scope': sc, 'called': called, 'third': third, 'ops': []}
+                for sc in ('', 'a/b') for called in ('sgd', 'adam', 'both') for third in (False, True)]
+
+
+def run_methods_case(case):
+  import contextlib
+  import types as _types
+  import core
+  gin = core.fresh_gin()
+  classes = {}
+  for mod in ('sgd', 'adam') + (('solo',) if case['third'] else ()):
+    g = {'gin': gin, '__name__': mod}
+    cname = 'Optimizer' if mod != 'solo' else 'Solo'
+    exec(f'class {cname}:\n  def __init__(self, lr=0.1):\n    self.lr = lr\n'  # pylint: disable=exec-used
+         f'  @gin.register\n  def step(self, clip=None, tag={mod!r}):\n    return (tag, self.lr, clip)\n', g)
+    gin.register(g[cname])
+    classes[mod] = g[cname]
+    del _types
+    import types as _types
+  pre = case['scope'].split('/')[0] + '/' if case['scope'] else ''
+  gin.bind_parameter(pre + 'sgd.Optimizer.step.clip', 5.0)
+  gin.bind_parameter('adam.Optimizer.step.clip', 7.0)
+  gin.bind_parameter('sgd.Optimizer.lr', 0.5)
+  if case['third']:
+    gin.bind_parameter('Solo.step.clip', 9.0)
+  which = ['sgd', 'adam'] if case['called'] == 'both' else [case['called']]
+  if case['third']:
+    which.append('solo')
+
+  def calls():
+    out = []
+    with contextlib.ExitStack() as st:
+      if case['scope']:
+        st.enter_context(gin.config_scope(case['scope']))
+      for m in which:
+        out.append(list(gin.get_configurable(classes[m])().step()))
+    return out
+  facts = {}
+  try:
+    facts['first'] = calls()
+    text = gin.operative_config_str()
+    facts['text'] = text
+    gin.clear_config()
+    gin.parse_config(text)
+    facts['replay'] = calls()
+    facts['same_text'] = gin.operative_config_str() == text
+  except Exception as e:  # pylint: disable=broad-except
+    facts['error'] = f'{type(e).__name__}: {e}'[:300]
+  want = {'sgd': ['sgd', 0.5, 5.0], 'adam': ['adam', 0.1, 7.0], 'solo': ['solo', 0.1, 9.0]}
+  facts['want'] = [want[m] for m in which]
+  return {'out': [], 'facts': facts}
+
+
 def gen_cases(rng, tier, boost=1):
+  yield from METHOD_CASES
   yield from SINGLETON_CASES
   n = (900 if tier == 'quick' else 25000) * boost
   for k in range(n):
@@ -133,7 +206,7 @@ def gen_cases(rng, tier, boost=1):
 
 
 def compare(case, impl, model):
-  if case.get('_kind') == 'singleton':
+  if case.get('_kind') in ('singleton', 'methods'):
     return None
   if case.get('_kind') != 'macro':
     return gindom.compare(case, impl, model)
@@ -158,6 +231,8 @@ def run_impl(case):
   """Normal run, then the replay experiment on the same interpreter state."""
   if case.get('_kind') == 'singleton':
     return run_singleton_case(case)
+  if case.get('_kind') == 'methods':
+    return run_methods_case(case)
   from encode import Opaque
   Opaque._all.clear()  # pylint: disable=protected-access
   s = gindom.Session()
@@ -212,6 +287,16 @@ def oracle(case, impl):
   """C07 stated directly on the parsed operative_config_str()."""
   if case.get('_kind') == 'macro':
     return macro_oracle(case, impl)
+  if case.get('_kind') == 'methods':
+    f = impl['facts']
+    if 'error' in f:
+      return (f'methods of same-named classes ({case["called"]}, scope {case["scope"]!r}): the operative config does not '
+              f'replay: {f["error"]}\n{f.get("text", "")}')
+    if f['first'] != f['want']:
+      return f'harness: method scenario delivered {f["first"]}, expected {f["want"]}'
+    if f['replay'] != f['first'] or not f['same_text']:
+      return f'replaying the operative config: first {f["first"]}, replay {f["replay"]}, same text {f["same_text"]}\n{f["text"]}'
+    return None
   if case.get('_kind') == 'singleton':
     f = impl['facts']
     if f['first'] != ['Thing', 5, 2]:
@@ -308,7 +393,7 @@ def macro_oracle(case, impl):
 
 
 def nontrivial(case, impl):
-  if case.get('_kind') == 'singleton':
+  if case.get('_kind') in ('singleton', 'methods'):
     return True
   if case.get('_kind') == 'macro':
     return any(o['op'] == 'ecall' and 'ok' in r for o, r in zip(case['ops'], impl['out']))
@@ -324,6 +409,8 @@ def nontrivial(case, impl):
 
 
 def shrink(case):
+  if case.get('_kind') in ('singleton', 'methods'):
+    return
   ops = case['ops']
   for k in range(len(ops) - 1, -1, -1):
     if ops[k]['op'] == 'register':
